@@ -39,7 +39,8 @@ Cmd(c) == /\ Quiet /\ Len(cmds) < MaxCmds /\ cmds' = Append(cmds, c)
 
 GenInit == ObsInit /\ cmds = <<>>
 Internal ==
-  \/ \E t \in m.thr : RecvWrite(t) \/ RecvRecord(t) \/ RecvComplete(t)
+  \/ \E t \in m.thr : (IF cmds # <<>> /\ cmds[Len(cmds)].op = "prepare" THEN RecvAbort(t) ELSE RecvWrite(t))
+                        \/ RecvRecord(t) \/ RecvComplete(t)
   \/ \E n \in Names : ValStart(n) \/ FinTake(n)
   \/ ValWait \/ ValMark \/ PutLog \/ PutMoveLck \/ PutMoveFinal \/ PutMark \/ PutRmCmp
   \/ RecWalk \/ RecCache \/ RecEnd
@@ -49,6 +50,8 @@ GenNext ==
      \/ \E r \in Requests :
           Prepare(r.n, r.v, r.lo, r.hi, r.dv)
           /\ Cmd([op |-> "recv", n |-> r.n, v |-> r.v, lo |-> r.lo, hi |-> r.hi, dv |-> r.dv])
+     \/ \E r \in Requests : r.dv = r.v /\ r.lo = 1 /\ r.hi = NB
+          /\ Prepare(r.n, r.v, r.lo, r.hi, r.dv) /\ Cmd([op |-> "prepare", n |-> r.n, v |-> r.v, lo |-> r.lo, hi |-> r.hi, dv |-> r.dv])
      \/ \E n \in Names : AnsStatus(n) /\ Cmd([op |-> "status", n |-> n])
      \/ \E r \in Requests : r.dv = r.v /\ AnsReceived(r.n, r.v, r.lo, r.hi)
           /\ Cmd([op |-> "received", n |-> r.n, v |-> r.v, lo |-> r.lo, hi |-> r.hi, dv |-> r.v])
